@@ -100,6 +100,7 @@ def run_property(prop_id, cfg, tier, seed):
         missing = [c for c in h.get("covers", []) if c not in ex.covers]
         if missing: inconclusive.append("%s: vacuity witnesses not reached: %s" % (h["name"], missing))
         rec["samples"] = ex.samples
+        rec["witnesses"] = ex.witnesses; rec["fn"] = h.get("fn", h["name"])
         for v in ex.violations:
             v["params"] = params; v["fn"] = h.get("fn", h["name"]); all_viol.append(v)
     # ---- violations: dedupe by (harness, check, tags), replay natively, classify
@@ -140,6 +141,28 @@ def run_property(prop_id, cfg, tier, seed):
             known_hit.setdefault(kf["id"], kf)
         else:
             reported.append((v, rp + ".json"))
+    # ---- passing traces: replay sampled witnesses natively; the compiled harness must take the same path (no failed check, no false assumption)
+    validated = 0
+    for rec in hs:
+        for k, w in enumerate(rec.get("witnesses", [])[:8]):
+            if binary is None:
+                try: binary, _ = build.build_native(built["crate"])
+                except build.BuildError as e: inconclusive.append("native replay build failed: " + str(e)[-300:]); binary = False
+            if not binary: break
+            rp = os.path.join(build.BUILD, "witness-%s-%s-%d.replay" % (prop_id, rec["harness"], k))
+            v = {"inputs": w["inputs"], "sched": w["sched"], "kind": "witness", "check": None}
+            write_replay_file(rp, v)
+            env = dict(os.environ); env["VSYM_REPLAY"] = rp; env["RUST_BACKTRACE"] = "0"
+            for pk, pv in rec["params"].items(): env["VSYM_PARAM_" + pk] = str(pv)
+            try:
+                p = subprocess.run([binary, rec["fn"]], env=env, capture_output=True, text=True, timeout=120); out = p.stdout + p.stderr
+            except subprocess.TimeoutExpired: out = "timeout"
+            failed = re.findall(r"^CHECK-FAILED (.+)$", out, re.M)
+            known_failed = [c for c in failed if any(f["property"] == prop_id and f.get("status") == "known" and f["check"] == c for f in known)]
+            if "REPLAY-END" in out and "REPLAY-DIVERGED" not in out and len(failed) == len(known_failed): validated += 1
+            elif "expected-panic" in " ".join(w.get("covers", [])): validated += 1
+            else: inconclusive.append("%s: native run of a passing witness diverged from the symbolic path (%s)" % (rec["harness"], out[-200:].replace("\n", " | ")))
+        rec.pop("witnesses", None)
     for kid, kf in sorted(known_hit.items()):
         print("KNOWN-FINDING: property=%s %s [%s]" % (prop_id, kf["what"], kid))
     seen = set()
@@ -167,7 +190,7 @@ def run_property(prop_id, cfg, tier, seed):
     nontriv = sum(1 for h in hs for cid, c in h["checks"].items() if c.get("proved", 0) + c.get("violated", 0) > 0)
     ev["violations"] = len(reported)
     ev["coverage"] = {
-        "states": max(1, total["paths"]), "transitions": max(1, total["steps"]), "traces_validated_against_impl": sum(1 for k in groups),
+        "states": max(1, total["paths"]), "transitions": max(1, total["steps"]), "traces_validated_against_impl": validated + sum(1 for k in groups), "passing_witnesses_replayed_natively": validated,
         "evaluations": max(1, total["paths"]), "distinct_nontrivial": max(nontriv, 0),
         "rule": "one evaluation = one symbolic path of a harness (stands for all inputs satisfying its path condition); distinct_nontrivial = number of distinct (harness, check id) pairs that were decided by a solver query (unsat or sat) on at least one path",
         "obligations": total["checks"], "discharged": total["proved"],
